@@ -787,6 +787,18 @@ Varable failures: {var_failed}
             tvar[:, :, 1] = hhmmss[:, None].repeat(tvar.shape[1], 1)
             self.SDATE = tvar[0, 0, 0]
             self.STIME = tvar[0, 0, 1]
+            etvar = self.variables.get('ETFLAG', None)
+            if (
+                etvar is not None and etvar.shape[:1] == tvar.shape[:1] and
+                etvar.shape[1] not in (0, tvar.shape[1])
+            ):
+                # end flags (CAMx files) follow the VAR dimension, too
+                evals = np.asarray(etvar[:, :1]).repeat(tvar.shape[1], 1)
+                eprops = {pk: getattr(etvar, pk) for pk in etvar.ncattrs()}
+                del self.variables['ETFLAG']
+                etvar = self.createVariable('ETFLAG', 'i', tvar.dimensions)
+                etvar.setncatts(eprops)
+                etvar[:] = evals
         else:
             if len(self.dimensions['VAR']) == 0:
                 return
